@@ -1,0 +1,34 @@
+//go:build verif
+
+package cabf_br
+
+// Machine-checked contracts for the verification machinery in /verif (govc).
+// This file contains comments only and is compiled only with -tags verif.
+
+// ---------------------------------------------------------------------------
+// reserved-address lints (C19): error exactly when an address / network is reserved
+
+//@ func (*SANReservedIP).Execute [C19]
+//@   requires c != nil && util.rnNonNil()
+//@   nopanic
+//@   assigns \fresh
+//@   loop 1 invariant forall(j, 0, k, !util.IsIANAReserved(c.IPAddresses[j]))
+//@   ensures result != nil && fresh(result) && (result.Status == lint.Error || result.Status == lint.Pass)
+//@   ensures (result.Status == lint.Error) == exists(j, 0, len(c.IPAddresses), util.IsIANAReserved(c.IPAddresses[j]))
+
+//@ func (*subjectReservedIP).Execute [C19]
+//@   requires c != nil && util.rnNonNil()
+//@   nopanic
+//@   assigns \fresh
+//@   ensures result != nil && fresh(result) && (result.Status == lint.Error || result.Status == lint.Pass)
+//@   ensures (result.Status == lint.Error) ==
+//@           (parseIP(c.Subject.CommonName) != nil && util.IsIANAReserved(parseIP(c.Subject.CommonName)))
+
+//@ func (*NCReservedIPNet).Execute [C19]
+//@   requires c != nil && util.rnNonNil()
+//@   nopanic
+//@   assigns \fresh
+//@   loop 1 invariant forall(j, 0, k, !util.IntersectsIANAReserved(c.PermittedIPAddresses[j].Data))
+//@   ensures result != nil && fresh(result) && (result.Status == lint.Error || result.Status == lint.Pass)
+//@   ensures (result.Status == lint.Error) ==
+//@           exists(j, 0, len(c.PermittedIPAddresses), util.IntersectsIANAReserved(c.PermittedIPAddresses[j].Data))
